@@ -2692,7 +2692,7 @@ fn process_fn(
         let vs = range_of(_vis);
         let st = if vs.1 > vs.0 { vs.0.min(start) } else { start };
         // (and with what is known before the loop about everything the loop does not modify)
-        let iso = if u.attrs.contains("loop_isolation") { "" } else { "#[verifier::loop_isolation(false)]\n" };
+        let iso = if u.attrs.contains("loop_isolation") || !u.loops.is_empty() { "" } else { "#[verifier::loop_isolation(false)]\n" };
         bv.fc.edit_ord(st, st, format!("{iso}#[verifier::exec_allows_no_decreases_clause]\n"), "W.no_decreases", -21);
         if !u.id.starts_with("auto:") {
             bv.fc.degraded.push(format!("unit {}: {} loop(s) without a contract (no invariant; termination not checked)", u.id, bv.loop_no - bv.used_loops.len()));
